@@ -6,7 +6,9 @@ import (
 	"errors"
 	"fmt"
 	"io"
+	"net/http"
 	"reflect"
+	"regexp"
 	"sort"
 	"strings"
 	"time"
@@ -206,7 +208,22 @@ func c09Dump(obj reflect.Value) string {
 			}
 		}()
 	}
-	return sb.String()
+	return c09MaskClock(sb.String())
+}
+
+var c09DateRe = regexp.MustCompile(`Date: [A-Z][a-z]{2}, \d{2} [A-Z][a-z]{2} \d{4} \d{2}:\d{2}:\d{2} GMT`)
+
+// the default Date header is the wall clock (refreshed every second): two dumps taken across a tick differ by
+// design.  Only a value within a few seconds of now is masked; any other Date is left as it is.
+func c09MaskClock(s string) string {
+	return c09DateRe.ReplaceAllStringFunc(s, func(m string) string {
+		if tm, err := time.Parse(http.TimeFormat, m[len("Date: "):]); err == nil {
+			if d := time.Since(tm); d > -5*time.Second && d < 5*time.Second {
+				return "Date: <now>"
+			}
+		}
+		return m
+	})
 }
 
 type c09type struct {
